@@ -42,7 +42,7 @@ THEOREMS = [
 ASSUMPTIONS = [
     'hand-written Lean model of arraywriters / array_to_file / shared_range / header refusals (Model/C02.lean) in exact '
     'rational arithmetic, tied to the code by the exact correspondence streams of this run (raw integers, stored '
-    'slope/intercept as exact rationals, error kinds)',
+    'slope/intercept as exact rationals, error kinds) and by the decision-level stream on inexact inputs',
     'IEEE rounding inside NumPy is NOT modelled: the stored float32 slope/intercept are free rationals in the theorems '
     '(their distance to the ideal values appears as explicit error terms); the evaluation of (v - inter) / slope in the '
     'working float type is checked only by the oracle, which allows 3 * 2**-p * |v - inter| for it',
@@ -52,7 +52,9 @@ ASSUMPTIONS = [
     'against the values nibabel computes now for every (float32/float64, integer type) pair',
     'oracle reference: fractions.Fraction arithmetic on the stored slope / intercept and the raw integers read back',
 ]
-RULE = ('exact streams: dyadic grids (A + j) * 2**k with range = shared type range * 2**k, quarter-step offsets (rint ties), '
+RULE = ('decisions stream: every general-stream NIfTI/SPM case whose writer decisions are not within rounding distance of '
+        'flipping is also compared with the model at decision level (slope == 1, inter == 0, sign of slope, refusal); '
+        'exact streams: dyadic grids (A + j) * 2**k with range = shared type range * 2**k, quarter-step offsets (rint ties), '
         'NaN / +-inf mixtures, constants, int->int (intercept only, sign flip, range scaling), refusals, x every class '
         '(NIfTI slope+inter, SPM slope only, Analyze / MGH none) x every integer on-disk dtype the class supports; '
         'array_to_file stream with free dyadic (slope, inter, mn, mx) incl. thresholds far outside the type range; '
@@ -481,6 +483,24 @@ def ulp32(x):
 
 
 def oracle_save(case, out):
+    """The property on the real code, in exact Fraction arithmetic on the STORED slope s / intercept b and the raw
+    integers q read back.  For every finite input v (and 0 for NaN, mx / mn for +inf / -inf):
+
+        |q*s + b - v|  <=  |s|/2 + R + G + W
+
+    R (rounding of the stored slope / intercept) = min( ulp32(b) + ulp32(s)*Q ,                       [a priori]
+                                                        |b - b*| + |s - s*| * max(|L'|,|H'|) )          [exact replay]
+        (s*, b*) = ideal values of the writer variant selected, obtained by replaying the writer's decisions exactly
+        (`ideal_scale`); [L', H'] = integer range that variant aims at (theorem Nb.C02.error_bound_gap).  With NaN in
+        the data the nan2zero re-fit may move the intercept by a rounding-size amount: 2 ulp32 allowed in addition.
+    G (gap term, theorem error_bound_gap) = |s| * max(H' - both_mx, both_mn - L', 0): slope-only writers scale to the
+        integer TYPE range but array_to_file clips to shared_range(working float, out): e.g. int32 through a float32
+        working type tops out at 2147483520, 127 steps below the ideal image of the maximum.
+    W (evaluation of (v - b)/s in the working float with p significand bits; NOT the property's rounding of the stored
+        numbers, but inseparable from it): two roundings, relative error < (2u + u^2) of the scaled value x, u = 2**-p,
+        i.e. < 3u*|v - b| in data units; plus one float32 subnormal spacing 2**-148 when p = 24.
+    Not allowed: any loss in converting the INPUT to the working float (64-bit integers beyond 2**53) — open finding.
+    """
     d = case.data
     cls, in_name, out_name = d['cls'], d['in'], d['out']
     vals = [parse_val(s, in_name) for s in d['vals']]
